@@ -70,12 +70,13 @@ def run_rollout(p):
             def __init__(self):
                 super().__init__()
                 self.bn = torch.nn.BatchNorm1d(1)
+                self.w = torch.nn.Parameter(torch.zeros(()))
 
             def forward(self, batch, env=None, decode_type=None, **k):
                 x = batch["locs"][:, 0, 0]
                 if self.training:
-                    return {"reward": x * 3 + 1 + x.sum()}
-                return {"reward": x * 3 + 1}
+                    return {"reward": x * 3 + 1 + x.sum() + self.w}
+                return {"reward": x * 3 + 1 + self.w}
 
         env = types.SimpleNamespace(reset=lambda b: b, name="tsp", dataset=lambda batch_size=None, **k: ds.TensorDictDataset(td.clone()))
         rb = RolloutBaseline()
@@ -84,6 +85,8 @@ def run_rollout(p):
         bad = []
         if len(rb.bl_vals) != N or any(abs(float(rb.bl_vals[i]) - float(locs[i, 0, 0] * 3 + 1)) > 1e-5 for i in range(N)):
             bad.append("setup: stored baseline values are not the copied policy's inference-mode rewards")
+        with torch.no_grad():
+            actor.w.add_(5.0)  # the actor keeps training: an optimizer updates its parameters in place; the baseline is a frozen snapshot
         rb.train()  # the trainer puts the whole module tree (baseline policy included) into train mode at every epoch start
         for cls_name in ("TensorDictDataset", "FastTdDataset", "TensorDictDatasetFastGeneration"):
             wrapped = rb.wrap_dataset(getattr(ds, cls_name)(td.clone()), env, batch_size=eval_bs, device="cpu")
